@@ -453,6 +453,17 @@ class Interp:
         for t in st.targets:
             if isinstance(t, ast.Name):
                 env.pop(t.id, None)
+            elif isinstance(t, ast.Subscript):
+                obj = self.eval(t.value, env, fr)
+                key = self.eval(t.slice, env, fr)
+                if isinstance(obj, dict) and isinstance(key, (str, int)):
+                    del obj[key]            # a missing key raises KeyError exactly as in Python (see st_Try)
+                elif isinstance(obj, SymTD) and isinstance(key, str):
+                    del obj.data[key]
+                else:
+                    raise Unsupported("del of a subscript that is not a plain dict / TensorDict entry")
+            else:
+                raise Unsupported("del of this target")
 
     def st_Assign(self, st, env, fr):
         v = self.eval(st.value, env, fr)
@@ -591,8 +602,22 @@ class Interp:
                 m.__exit__(None, None, None)
 
     def st_Try(self, st, env, fr):
-        # modelled: body only (no exception other than asserts / WF failures is modelled, A12)
-        self.exec_block(st.body, env, fr)
+        # modelled: body only (no exception other than asserts / WF failures is modelled, A12), except KeyError of a plain
+        # dict operation, which is concrete and handled by a matching `except KeyError / Exception / bare except`
+        try:
+            self.exec_block(st.body, env, fr)
+        except KeyError:
+            for h in st.handlers:
+                names = []
+                if h.type is not None:
+                    names = [ast.unparse(x) for x in (h.type.elts if isinstance(h.type, ast.Tuple) else [h.type])]
+                if h.type is None or any(n in ("KeyError", "LookupError", "Exception", "BaseException") for n in names):
+                    self.exec_block(h.body, env, fr)
+                    break
+            else:
+                raise
+            self.exec_block(st.finalbody, env, fr)
+            return
         self.exec_block(st.orelse, env, fr)
         self.exec_block(st.finalbody, env, fr)
 
@@ -1360,7 +1385,7 @@ def _b_range(*a):
 def _b_isinstance(x, t):
     toks = t if isinstance(t, tuple) else (t,)
     for tok in toks:
-        n = tok.name if isinstance(tok, TypeTok) else getattr(tok, "__name__", str(tok))
+        n = tok.name if isinstance(tok, (TypeTok, Opaque)) else getattr(tok, "__name__", str(tok))
         if n == "int" and (isinstance(x, int) and not isinstance(x, bool) or (is_z3(x) and x.sort() == z3.IntSort())):
             return True
         if n == "float" and (isinstance(x, float) or (is_z3(x) and x.sort() == z3.RealSort())):
@@ -1378,6 +1403,8 @@ def _b_isinstance(x, t):
         if n == "Tensor" and isinstance(x, SymTensor):
             return True
         if n in ("TensorDict", "TensorDictBase") and isinstance(x, SymTD):
+            return True
+        if n.endswith("Iterable") and isinstance(x, (list, tuple, dict)):   # typing / collections.abc Iterable: plain containers only
             return True
     return False
 
